@@ -74,6 +74,10 @@ void verif_out_str(const char *name, const char *s) { printf("OUTS %s %s\n", nam
 void verif_note(const char *text) { }
 void verif_stop(void) { fflush(stdout); exit(fails ? 1 : 0); }
 void verif_log_accesses(int on) { }
+double verif_logged_value(const char *marker, int *found) {
+  // native: the stub proxy writes the log to stdout, which also carries this runtime's protocol; logged values are not replayed natively
+  *found = 0; return 0.0;
+}
 long verif_param(const char *name, long dflt) { std::string k = std::string("param.") + name; if (has(k.c_str())) return strtol(inputs[k].c_str(), nullptr, 10); return dflt; }
 void verif_need_module(void) { static colvarproxy_stub *p = nullptr; if (!p && !cvm::main()) p = new colvarproxy_stub(); }
 }
